@@ -133,11 +133,13 @@ def rule_writers(ctx, rule='WRITERS'):
     except AnchorLost as e:
         rep.fail(rule, 'anchor:stepping-function', '', str(e), 'anchor-lost')
         return False
+    spliced = set(getattr(oa.body, 'inlined', []))
     for m in ('set_sampled', 'reset_value'):
         cs = callers_of_basis(m)
         for k, s in cs:
             b = f.bodies[k]
-            good &= rep.check(b.path == step, rule, 'caller-of-Basis::%s:%s' % (m, b.path), where(b, s['bb']),
+            # a closure (or helper) whose blocks were spliced into the stepping function is part of it
+            good &= rep.check(b.path == step or b.path in spliced, rule, 'caller-of-Basis::%s:%s' % (m, b.path), where(b, s['bb']),
                               'the stepping function', 'Basis::%s is called outside the optimiser\'s stepping function' % m)
         good &= rep.floor(rule, 'callers of Basis::' + m, len(cs), 1)
     rep.sample('WRITERS: SharedValue::set_value called from %s; cell field touched in %d places, all inside SharedValue'
